@@ -270,8 +270,15 @@ CooInverseImpl(coo) == CooFromLocalImpl(coo, [k \in DOMAIN CooToLocalImpl(coo) |
 Coo1(coo) == [coo EXCEPT !.idx = [ax \in DOMAIN coo.idx |-> [n \in DOMAIN coo.idx[ax] |-> coo.idx[ax][n] + 1]]]
 
 \* bmat block offsets (utils.py:676-690): for j in range(n-1): first non-None block of column j:
-\*   sizes.append(width + diff); diff += sizes[-1]
+\*   sizes.append(width + diff); diff = sizes[-1]
 BmatOffsetsImpl(cw) ==
+  LET st[j \in 0..(Len(cw) - 1)] ==
+        IF j = 0 THEN [sizes |-> <<>>, diff |-> 0]
+        ELSE LET s == cw[j] + st[j - 1].diff IN [sizes |-> Append(st[j - 1].sizes, s), diff |-> s]
+  IN st[Len(cw) - 1].sizes
+\* regression model: the accumulation before the repair 3bbf4b4 (diff += sizes[-1], although sizes already holds
+\* cumulative offsets).  TLC must refute BmatBlockOffsets for it (MC_C19_bmat_old.cfg): four block columns of width 1.
+BmatOffsetsOldImpl(cw) ==
   LET st[j \in 0..(Len(cw) - 1)] ==
         IF j = 0 THEN [sizes |-> <<>>, diff |-> 0]
         ELSE LET s == cw[j] + st[j - 1].diff IN [sizes |-> Append(st[j - 1].sizes, s), diff |-> st[j - 1].diff + s]
